@@ -3,6 +3,8 @@ package main
 import (
 	"context"
 	"fmt"
+	"github.com/plgd-dev/go-coap/v3/message/pool"
+	"github.com/plgd-dev/go-coap/v3/net/responsewriter"
 	"net"
 	"time"
 
@@ -37,8 +39,21 @@ func serverConnScenario(kind string, nstart, maxRetransmit uint32) *mcx.Scenario
 				var cc *udpclient.Conn
 				var tick func(time.Time) bool
 				var written func() [][]byte
-				if kind == "udp" {
-					u := srvw.NewUDP(srvw.UDPOpts{Transmission: tr})
+				arrive := func(time.Time) {}
+				if kind == "udp" || kind == "udp+arrivals" {
+					u := srvw.NewUDP(srvw.UDPOpts{Transmission: tr, Handler: func(*responsewriter.ResponseWriter[*udpclient.Conn], *pool.Message) {}})
+					if kind == "udp+arrivals" {
+						// an unrelated datagram of the same peer arrives 20 ms before every k x ACK_TIMEOUT (the server looks 10 ms
+						// ahead when a datagram arrives - DESIGN O10 - so 20 ms is outside that window)
+						n := int32(0)
+						arrive = func(at time.Time) {
+							vrt.SetClock(at)
+							n++
+							u.Send(&net.UDPAddr{IP: net.IPv4(10, 0, 0, 11), Port: 1}, srvw.EncodeUDP(message.Message{Type: message.NonConfirmable, Code: codes.GET, MessageID: 500 + n, Token: message.Token{0x70, byte(n)},
+								Options: message.Options{{ID: message.URIPath, Value: []byte("unrelated")}}}))
+							vrt.Quiesce("env: unrelated datagram handled")
+						}
+					}
 					cleanup = u.Cleanup
 					vrt.Quiesce("env: server up")
 					var err error
@@ -96,6 +111,10 @@ func serverConnScenario(kind string, nstart, maxRetransmit uint32) *mcx.Scenario
 				collect()
 				for k := 1; k <= int(maxRetransmit)+3 && !returned; k++ {
 					for _, d := range []time.Duration{-delta, +delta} {
+						if kind == "udp+arrivals" && d > 0 {
+							arrive(t0.Add(time.Duration(k)*T - 20*time.Millisecond))
+							collect()
+						}
 						vrt.SetClock(t0.Add(time.Duration(k)*T + d))
 						tick(vrt.Now())
 						vrt.Quiesce("env: tick")
@@ -135,5 +154,6 @@ func serverConnScenarios() []*mcx.Scenario {
 	for _, k := range []string{"udp", "dtls"} {
 		scs = append(scs, serverConnScenario(k, 3, 1), serverConnScenario(k, 1, 2))
 	}
+	scs = append(scs, serverConnScenario("udp+arrivals", 1, 2))
 	return scs
 }
